@@ -93,6 +93,7 @@ class Streams:
         self.classes = collections.Counter()
         self.shrunk = {}          # class -> (case, verdict, finding id or None)
         self.t_shrink = 0.0
+        self.unclassified = 0
 
     def lean_compare(self, stream, rows):
         reqs = [r[0] for r in rows if r[0] != "-"]
@@ -128,34 +129,51 @@ class Streams:
             by_class.setdefault(cls, []).append(r)
             self.classes[cls] += 1
         reported = 0
-        for cls, rs in by_class.items():
-            if cls in self.shrunk:
-                fid = self.shrunk[cls][2]
-                if fid:
-                    c.known_hit[fid] = c.known_hit.get(fid, 0) + len(rs)
-                    continue
-                # an unexplained class seen before: already reported
-                continue
-            if len(self.shrunk) >= 60:
-                continue
+
+        def shrink_row(r):
             t0 = time.time()
             try:
-                sh = run_lines(self.hb, "c05-shrink", [case_of(rs[0])], budget=300)[0]
+                sh = run_lines(self.hb, "c05-shrink", [case_of(r)], budget=300)[0]
             except Exception as e:
-                sh = rs[0]
+                sh = r
                 log("shrink failed:", e)
             self.t_shrink += time.time() - t0
             case, verdict = case_of(sh), sh[2]
             if not verdict.startswith("FAIL"):
-                case, verdict = case_of(rs[0]), rs[0][2]
-            kf = c.match_known(case + "\t" + verdict)
-            self.shrunk[cls] = (case, verdict, kf["id"] if kf else None)
-            if kf:
-                c.known_hit[kf["id"]] += len(rs) - 1
-                continue
-            if reported < 5:
+                case, verdict = case_of(r), r[2]
+            return case, verdict
+
+        for cls, rs in by_class.items():
+            # every row of the class is judged by its own verdict (the facts the finding regexes
+            # look at are in the verdict); one representative per class is shrunk for the evidence;
+            # rows no finding explains are shrunk individually and judged again
+            odd = []
+            for r in rs:
+                kf = c.match_known(case_of(r) + "\t" + r[2])
+                if not kf:
+                    odd.append(r)
+            if cls not in self.shrunk:
+                if len(self.shrunk) >= 150:
+                    self.unclassified += 1
+                else:
+                    case, verdict = shrink_row(rs[0])
+                    kf = None
+                    for f in c.known:   # no hit counting here: the row was counted above
+                        if re.search(f["match"], case + "\t" + verdict, re.S):
+                            kf = f
+                            break
+                    self.shrunk[cls] = (case, verdict, kf["id"] if kf else None)
+                    if not kf and rs[0] not in odd:
+                        odd.insert(0, rs[0])
+            for r in odd[:3]:
+                if reported >= 5:
+                    break
+                case, verdict = shrink_row(r)
+                if c.match_known(case + "\t" + verdict):
+                    continue
                 c.violation({"kind": "oracle-failure", "stream": stream, "class": cls, "case": case,
-                             "oracle": verdict, "unshrunk_case": case_of(rs[0])[:20000], "n_in_class": len(rs)})
+                             "oracle": verdict, "unshrunk_case": case_of(r)[:20000], "n_in_class": len(rs),
+                             "n_unexplained_in_class": len(odd)})
                 reported += 1
         if dis:
             unexplained = [(r, m) for (r, m) in dis]
@@ -173,11 +191,12 @@ def hypothesis_check(c, stream, rows):
     must have found every intermediate result Closed"""
     cases = [r for r in rows if r[0].startswith("nameops ")]
     replies = drv(["namesok " + r[0][len("nameops "):] for r in cases])
-    holds = 0
+    holds = contradicted = 0
     for r, rep in zip(cases, replies):
         if rep == "closed=true side=true hyp=true":
             holds += 1
-            if r[2].startswith("FAIL"):
+            if r[2].startswith("FAIL") and contradicted < 2:
+                contradicted += 1
                 c.violation({"kind": "theorem-contradicted", "stream": stream,
                              "broken": "C05_names: hypotheses hold on this case but the implementation leaves a dangling use",
                              "case": r[0][:20000], "oracle": r[2]})
@@ -281,6 +300,8 @@ def main():
     S.process("c05-filter", harness(hb, "c05-filter", n=n(800, 30000), seed=seed, tier=tier, work=WORK),
               nontrivial=lambda r: r[1].startswith("ok"))
 
+    c.oblige("every failure class was shrunk and classified (no class skipped)", S.unclassified == 0,
+             "%d failure classes beyond the cap" % S.unclassified)
     c.cov["failure_classes"] = dict(S.classes)
     c.cov["shrunk"] = {k: {"case": v[0][:1500], "oracle": v[1][:400], "finding": v[2]} for k, v in list(S.shrunk.items())[:40]}
     c.cov["shrink_wall_s"] = round(S.t_shrink, 1)
